@@ -1,4 +1,123 @@
-(* placeholder while the model is brought up; replaced by the real statements *)
-From Coq Require Import ZArith.
-From V Require Import C06Demux.
-Example C06_placeholder : mt_of CAAC = 1%Z. Proof. reflexivity. Qed.
+(* C06 — RTP depacketisation reproduces the sender's access units exactly.
+   Statements only; proofs are in Proofs/C06*.v.  The depacketiser models are
+   Model/C06NalDepack.v (+ C06H264Depack.v, C06H265Depack.v descriptors),
+   C06AacDepack.v, C06SyncClock.v, C06Demux.v; the packetisers packetize264 /
+   packetize265 / packetize_aac are written from the RFCs. *)
+From Coq Require Import ZArith List Bool.
+From V Require Import Val Bytes C06Rtp C06NalDepack C06H264Depack C06H265Depack C06AacDepack
+  C06SyncClock C06Demux RunC06 C06TopProofs.
+Import ListNotations.
+Open Scope Z_scope.
+
+(* same bytes, same order, none invented — for every unit list, every legal plan
+   (single / aggregated / fragmented with any chunk sizes), every starting
+   sequence number, from ANY depacketiser state with ready metadata (so also
+   after arbitrary earlier input).  H.264 filler data (type 12) is discarded by
+   writeFrame on purpose; nothing else is filtered. *)
+Theorem C06_h264_roundtrip : forall seq0 items st,
+  forallb (item_ok z264) items = true -> w_ready (g_w st) = true ->
+  exists st', depack264 st (packetize264 seq0 items)
+              = (st', filter (fun f => keep264 (u_pl f)) (flat_map item_frames items), false).
+Proof. exact h264_roundtrip. Qed.
+Print Assumptions C06_h264_roundtrip.
+
+Theorem C06_h265_roundtrip : forall seq0 items st,
+  forallb (item_ok z265) items = true -> w_ready (g_w st) = true ->
+  exists st', depack265 st (packetize265 seq0 items) = (st', flat_map item_frames items, false).
+Proof. exact h265_roundtrip. Qed.
+Print Assumptions C06_h265_roundtrip.
+
+Theorem C06_aac_roundtrip : forall seq0 items,
+  forallb aac_item_ok items = true ->
+  aac_run (packetize_aac seq0 0 items) = (flat_map aac_item_frames items, false).
+Proof. exact aac_roundtrip. Qed.
+Print Assumptions C06_aac_roundtrip.
+
+(* every loss pattern: exactly the units all of whose packets survive come out,
+   in order; a truncated or spliced unit is never emitted.  Guard: at most
+   65536 packets, i.e. distinct sequence numbers (beyond that RTP itself cannot
+   tell a fragment from one 65536 packets later). *)
+Theorem C06_fu_whole_or_nothing_h264 : forall seq0 items mask,
+  forallb (item_ok z264) items = true ->
+  length mask = total_pk items -> Z.of_nat (total_pk items) <= 65536 ->
+  exists st', depack264 st264_init (select mask (packetize264 seq0 items))
+              = (st', spec_loss keep264 items mask, false).
+Proof. exact fu_whole_or_nothing_264. Qed.
+Print Assumptions C06_fu_whole_or_nothing_h264.
+
+Theorem C06_fu_whole_or_nothing_h265 : forall seq0 items mask,
+  forallb (item_ok z265) items = true ->
+  length mask = total_pk items -> Z.of_nat (total_pk items) <= 65536 ->
+  exists st', depack265 st265_init (select mask (packetize265 seq0 items))
+              = (st', spec_loss keep265 items mask, false).
+Proof. exact fu_whole_or_nothing_265. Qed.
+Print Assumptions C06_fu_whole_or_nothing_h265.
+
+Theorem C06_aac_whole_or_nothing : forall seq0 items mask,
+  forallb aac_item_ok items = true -> length mask = length items ->
+  aac_run (select mask (packetize_aac seq0 0 items)) = (aac_spec_loss items mask, false).
+Proof. exact aac_whole_or_nothing. Qed.
+Print Assumptions C06_aac_whole_or_nothing.
+
+(* with no loss the loss specification is the full unit list *)
+Theorem C06_spec_loss_full : forall keep items mask,
+  length mask = total_pk items -> all_true mask = true ->
+  spec_loss keep items mask = filter (fun f => keep (u_pl f)) (flat_map item_frames items).
+Proof. exact spec_loss_full. Qed.
+Print Assumptions C06_spec_loss_full.
+
+(* units of one RTP timestamp share one presentation time *)
+Theorem C06_pts_same_timestamp : forall c clock base it o,
+  c <> CAAC -> In o (map (to_oframe c clock base) (true_frames c it)) ->
+  o_pts o = pts_of clock base (item_ts it).
+Proof. exact pts_same_timestamp. Qed.
+Print Assumptions C06_pts_same_timestamp.
+
+Theorem C06_pts_affine : forall clock base t1 t2,
+  pts_of clock base t2 - pts_of clock base t1 = scale clock (t2 - base) - scale clock (t1 - base).
+Proof. exact pts_affine. Qed.
+Print Assumptions C06_pts_affine.
+
+(* D10 (known finding): across the 32-bit wrap a later unit gets an earlier presentation time *)
+Theorem C06_pts_wrap_refuted : exists clock base t1 t2,
+  t1 < t2 /\ t2 - t1 = 512 /\ pts_of clock base (ts32 t2) < pts_of clock base (ts32 t1).
+Proof. exact pts_wrap_refuted. Qed.
+Print Assumptions C06_pts_wrap_refuted.
+
+(* the oracle applied to the implementation (x_C06_ok = ok_case) accepts the
+   model (x_C06_run = run_case) on every well-formed loss-mode case: demuxer
+   level, sender reports and presentation times included.  case_wf contains
+   no_ts_wrap and the 65536-packet guard. *)
+Theorem C06_model_passes : forall k,
+  k_mode k = 0 ->
+  case_wf (k_cd k) (k_clock k) (k_seq0 k) (k_items k) (k_mask k) = true ->
+  let '(fs, pn) := run_case k in ok_case k fs pn = true.
+Proof. exact C06_model_passes_run. Qed.
+Print Assumptions C06_model_passes.
+
+(* behaviour before the fixes, kept as witnesses (D8, D9) *)
+Theorem C06_h264_fu_start_loss_refuted :
+  let ps := select [false; true; true] (packetize264 11 d8_items) in
+  (exists st1 st2, fu_step_d8 c264 st264_init (nth 0 ps (mkP 0 0 false [])) = (st1, ROk []) /\
+                   fu_step_d8 c264 st1 (nth 1 ps (mkP 0 0 false [])) = (st2, ROk [mkU 1000 [97; 170; 187; 204; 221]]))
+  /\ snd (fst (depack264 st264_init ps)) = [].
+Proof. exact h264_fu_start_loss_refuted. Qed.
+Print Assumptions C06_h264_fu_start_loss_refuted.
+
+Theorem C06_stap_nri_rewrite_refuted :
+  let us := [[6; 1; 2]; [101; 9]] in
+  let pl := p_pl (nth 0 (packetize264 13 [IAgg 1000 true us]) (mkP 0 0 false [])) in
+  pl = [120; 0; 3; 6; 1; 2; 0; 2; 101; 9] /\
+  map (stapa_rewrite 120) us = [[102; 1; 2]; [101; 9]] /\
+  map (stapa_rewrite 120) us <> us /\
+  snd (fst (depack264 st264_init (packetize264 13 [IAgg 1000 true us]))) = map (mkU 1000) us.
+Proof. exact stap_nri_rewrite_refuted. Qed.
+Print Assumptions C06_stap_nri_rewrite_refuted.
+
+(* non-vacuity: the guards are satisfiable by a case with aggregation, a
+   fragmented unit across the sequence wrap, a sender report and a lost fragment *)
+Example C06_nonvacuous :
+  case_wf CH264 90000 65534 nv_items nv_mask = true /\
+  tspec CH264 90000 0 nv_items nv_mask =
+    [mkO 0 533333333 [103; 66; 0]; mkO 0 533333333 [104; 206]; mkO 0 588888888 [9; 240]].
+Proof. exact C06_nonvacuous. Qed.
